@@ -5,6 +5,21 @@ from .. import lemmas_stage2, lemma_sets_e1
 from . import C03
 
 
+def t8_lemmas(tier):
+    from ..e2.checklib import Lemma
+    from ..e2.intr_chunks import ChunkIntrinsics
+    F = ["zz_verif_tape.go", "zz_verif_wf.go", "zz_verif_t1.go"]
+    ls = []
+    for T in (range(4, 7) if tier == "quick" else range(4, 9)):
+        ls.append(Lemma("T8.TotalAtEveryPosition.T%d" % T, "verifHarness_T8_TotalAtEveryPosition", F, splits=[{"T": T - 4}], split_depth="auto", intr=ChunkIntrinsics,
+                        desc="on every well-formed tape with one root of %d words, or two roots of 4 and %d words (all shapes, NOP runs), the iterator is moved "
+                             "with AdvanceInto to every position (opening/closing root tags, container starts/ends, keys, values, end of tape) and every reader "
+                             "(Type, Root, Object, Array, Interface, FindElement, MarshalJSON, String(Bytes/Cvt), Int, Uint, FloatFlags, Bool, PeekNext(Tag), "
+                             "Advance, AdvanceIter+Interface, AdvanceInto to the end) is called on its own copy: no panic, every walk terminates" % (T, T),
+                        bound="tapes of %d (and 4+%d) words, nesting <= 3, every iterator position" % (T, T), expect_reach=["T8.positioned", "T8.done"]))
+    return ls
+
+
 def run(ctx):
     ctx.assume("every E2 lemma treats index/slice bounds, nil dereference, explicit panic, unwinding bounds and channel operations that can never "
                "complete as obligations; every E1 lemma carries a bounds obligation per load/store against what the Go caller provides (the .bounds entries)")
@@ -19,6 +34,7 @@ def run(ctx):
     ls += lemmas_stage2.u3_lemmas(ctx.tier)
     ls += lemmas_stage2.s6_lemmas(ctx.tier)
     ls += lemmas_stage2.deep_lemmas(ctx.tier)
+    ls += t8_lemmas(ctx.tier)
     run_lemmas(ctx, ls)
     # "without deadlocking their internal stages": the schedule lemmas of the asynchronous pipeline (Q1: no stuck configuration for
     # any stage-1 outcome x stage-2 outcome, no ring overwrite) and G2 (the synchronous path cannot fill the channel) are C07's,
